@@ -121,3 +121,33 @@ Theorem C18_code_reduced_axes_are_the_dense_discrete_choices : forall vi : list 
   end.
 Proof. exact choice_axes_spec. Qed.
 Print Assumptions C18_code_reduced_axes_are_the_dense_discrete_choices.
+
+(* ---- the choice axes of a model without filter-restricted variables --------------------------------------------- *)
+From LCM Require Import Spec.Lang Gen.DiscreteNoShocks Gen.SolveDiscrete Gen.SimulateKernels Proofs.C18_AxesFilterFree.
+(* variable_info lists discrete states, discrete choices, continuous states, continuous choices (all dense, none      *)
+(* auxiliary); states and choices have different names.  The regenerated axis functions give: for the solver the axes  *)
+(* |dst| .. |dst|+|dch|-1, for the simulation 1 .. |dch|; none without a dense discrete choice; and the regenerated     *)
+(* get_solve_discrete_problem / get_discrete_policy_calculator are the reductions with exactly these axes.             *)
+Theorem C18_code_choice_axes_of_a_model_without_filters :
+  forall dst dch cst cch : list (string * grid), NoDup (map fst (dst ++ dch ++ cst ++ cch)) ->
+  determine_dense_discrete_choice_axes (vi_of dst dch cst cch)
+  = match dch with [] => None | _ => Some (seq (length dst) (length dch)) end /\
+  determine_discrete_dense_choice_axes (vi_of dst dch cst cch)
+  = match dch with [] => None | _ => Some (seq 1 (length dch)) end.
+Proof. intros dst dch cst cch H. split; [now apply solver_axes_of_filter_free|now apply simulation_axes_of_filter_free]. Qed.
+Print Assumptions C18_code_choice_axes_of_a_model_without_filters.
+
+Theorem C18_code_reductions_of_a_model_without_filters :
+  forall dst dch cst cch : list (string * grid), NoDup (map fst (dst ++ dch ++ cst ++ cch)) ->
+  (forall is_last cc,
+     get_solve_discrete_problem (vi_of dst dch cst cch) is_last None cc tt
+     = solve_discrete_problem_no_shocks cc (match dch with [] => None | _ => Some (seq (length dst) (length dch)) end) None tt) /\
+  (forall values,
+     get_discrete_policy_calculator (vi_of dst dch cst cch) values None
+     = calculate_discrete_argmax values (match dch with [] => None | _ => Some (seq 1 (length dch)) end) None).
+Proof.
+  intros dst dch cst cch H. split.
+  - intros is_last cc. now apply solve_discrete_of_filter_free.
+  - intros values. now apply policy_calculator_of_filter_free.
+Qed.
+Print Assumptions C18_code_reductions_of_a_model_without_filters.
